@@ -143,6 +143,37 @@ class time_limit:
         return False
 
 
+class bounded:
+    """time_limit + an address-space cap for one call into the implementation under test: a change that makes the
+    code loop or allocate without bound becomes an exception at that input (Timeout / MemoryError), not a hung or killed check."""
+
+    def __init__(self, seconds, extra_mb=3000):
+        self.t = time_limit(seconds)
+        self.extra = extra_mb << 20
+
+    def __enter__(self):
+        import resource
+        self._old = resource.getrlimit(resource.RLIMIT_AS)
+        try:
+            with open('/proc/self/statm') as f:
+                cur = int(f.read().split()[0]) * resource.getpagesize()
+            soft = cur + self.extra
+            if self._old[1] != resource.RLIM_INFINITY:
+                soft = min(soft, self._old[1])
+            resource.setrlimit(resource.RLIMIT_AS, (soft, self._old[1]))
+        except Exception:
+            self._old = None
+        self.t.__enter__()
+        return self
+
+    def __exit__(self, *exc):
+        self.t.__exit__(*exc)
+        if self._old is not None:
+            import resource
+            resource.setrlimit(resource.RLIMIT_AS, self._old)
+        return False
+
+
 def take(gen, cap):
     """list(gen) but give up (Timeout) after cap items: a generator that never ends must not eat the memory"""
     out = []
